@@ -62,6 +62,26 @@ pub fn family(tier: Tier) -> Vec<RShard> {
             }
         }
     }
+    // the same file A under other segmentations (the same content deduplicated against different data): three
+    // segments instead of two, and two segments with other boundaries; the SHA-256 is the file's, whatever
+    // the segmentation
+    for (vid, nseg) in [(11u64, 3usize), (12, 2)] {
+        for f in 0..4u8 {
+            let mut v = mk_file(vid, al[1], nseg, f);
+            if v.sha.is_some() {
+                v.sha = mk_file(1, al[1], 2, 2).sha;
+            }
+            let mut s = RShard::default();
+            s.add_file(v.clone());
+            set.insert(s.clone());
+            if tier == Tier::Thorough || f == 1 || f == 2 {
+                // followed by another file, so that a mis-sized record shifts what comes after it
+                s.add_file(mk_file(0, al[0], 3, f));
+                s.add_xorb(xorb(0));
+                set.insert(s);
+            }
+        }
+    }
     // extreme truncated key
     for f in 0..4u8 {
         let mut s = RShard::default();
@@ -239,11 +259,42 @@ fn check_pair_inner(a: &Ser, b: &Ser, dir: &Path, tag: &str, sample: bool, out: 
     let mut st = Stats::default();
     let mut fails: Vec<(String, String)> = vec![];
     let desc = format!("first ({}) second ({})", a.model.describe(), b.model.describe());
+    // A file on both sides may have several acceptable merged records (RFile::merged_candidates): the
+    // expected shard carries, per such file, the candidate the result actually holds (found with the
+    // code's own scan; every other oracle then checks the result against that expectation), or the first
+    // candidate when the result holds none of them.
+    let (cand_files, _) = RShard::union_spec(&a.model, &b.model);
+    let multi = cand_files.values().any(|c| c.len() > 1);
+    let expect_union = |bytes: &[u8], out: &mut Partial| -> RShard {
+        let mut w = want_u.clone();
+        if !multi {
+            return w;
+        }
+        if let Ok((got, _, _)) = scan_to_model(bytes) {
+            for (k, c) in &cand_files {
+                if c.len() > 1 {
+                    if let Some(g) = got.files.get(k) {
+                        if c.contains(g) && w.files.get(k) != Some(g) {
+                            w.files.insert(*k, g.clone());
+                            out.count("vac:union_result_holds_another_acceptable_variant", 1);
+                        }
+                    }
+                }
+            }
+        }
+        w
+    };
+    if a.model.files.iter().any(|(k, f)| b.model.files.get(k).map(|g| g.segs != f.segs).unwrap_or(false)) {
+        out.count("vac:pairs_with_one_file_under_two_segmentations", 1);
+    }
 
     // ---- reader / writer API
     let mut out_u = Vec::new();
     match shard_set_union(&a.info, &mut Cursor::new(&a.bytes[..]), &b.info, &mut Cursor::new(&b.bytes[..]), &mut out_u) {
-        Ok(info) => fails.extend(check_result("union", "shard_set_union", &want_u, &out_u, Some(&info), &q, &mut st)),
+        Ok(info) => {
+            let w = expect_union(&out_u, out);
+            fails.extend(check_result("union", "shard_set_union", &w, &out_u, Some(&info), &q, &mut st))
+        },
         Err(e) => fails.push(("C10/union-error".into(), format!("shard_set_union failed: {e:?}"))),
     }
     let mut out_d = Vec::new();
@@ -268,6 +319,13 @@ fn check_pair_inner(a: &Ser, b: &Ser, dir: &Path, tag: &str, sample: bool, out: 
                     if hash.hex() + ".mdb" != shard_file_name_of(&bytes) {
                         fails.push((format!("C10/{op}-returned-hash-not-content-hash"), format!("shard_file_{op} returned hash {} but the file it wrote hashes to {}", hash.hex(), shard_file_name_of(&bytes))));
                     }
+                    let chosen;
+                    let want = if op == "union" {
+                        chosen = expect_union(&bytes, out);
+                        &chosen
+                    } else {
+                        want
+                    };
                     if &bytes == reader_bytes {
                         out.count("file_api_results_identical_to_reader_api", 1);
                         // same bytes: the record checks above apply; still compare the returned info
@@ -303,6 +361,13 @@ fn check_pair_inner(a: &Ser, b: &Ser, dir: &Path, tag: &str, sample: bool, out: 
                         }
                         out.count("info:in_memory_result_size_estimate_differs_from_serialized", 1);
                     }
+                    let chosen;
+                    let want = if op == "union" {
+                        chosen = expect_union(&bytes, out);
+                        &chosen
+                    } else {
+                        want
+                    };
                     fails.extend(check_result(op, &format!("MDBInMemoryShard::{op}"), want, &bytes, Some(&info), &q, &mut st));
                 },
                 Err(e) => fails.push((format!("C10/{op}-error"), format!("in-memory {op} does not serialize: {e}"))),
